@@ -509,7 +509,7 @@ fn search_e2e(rng: &mut Rng, walks: usize) -> Option<Cex> {
                 sign.configure_if_needed().map_err(|e| format!("configure_if_needed failed from prior {}: {}", sig, e))?;
                 if bus.borrow().sign(0).sign_type() != Some(t) { return Err(format!("configure_if_needed from prior {} left type {:?}", sig, bus.borrow().sign(0).sign_type())); }
                 let mut pages = vec![];
-                for i in 0..n_pages { pages.push(sign.create_page(PageId(i as u8 + 1))); }
+                for i in 0..n_pages { pages.push(sign.create_page(PageId(if w % 3 == 0 { 1 } else { i as u8 + 1 }))); }
                 sign.send_pages(&pages).map_err(|e| format!("send_pages after configure_if_needed from prior {} failed: {}", sig, e))?;
                 if bus.borrow().sign(0).pages().len() != pages.len() { return Err("pages differ after configure_if_needed".into()); }
                 return Ok(sig);
@@ -518,7 +518,7 @@ fn search_e2e(rng: &mut Rng, walks: usize) -> Option<Cex> {
             { let b = bus.borrow(); let s = b.sign(0);
               if s.sign_type() != Some(t) || !s.pages().is_empty() || s.state() != State::ConfigReceived { return Err(format!("after configure: {:?} {:?} {} pages", s.state(), s.sign_type(), s.pages().len())); } }
             let mut pages = vec![];
-            for i in 0..n_pages { let mut p = sign.create_page(PageId(i as u8 + 1)); let (pw, ph) = (p.width(), p.height());
+            for i in 0..n_pages { let mut p = sign.create_page(PageId(if w % 3 == 0 { 1 } else { i as u8 + 1 })); let (pw, ph) = (p.width(), p.height());
                 for _ in 0..20 { p.set_pixel((rng_u32(i, w) % pw.max(1)).min(pw - 1), (rng_u32(i + 7, w) % ph.max(1)).min(ph - 1), true); } pages.push(p); }
             let fs = sign.send_pages(&pages).map_err(|e| format!("send_pages failed: {}", e))?;
             if fs != style { return Err(format!("flip style {:?} reported, sign is {:?}", fs, style)); }
